@@ -54,6 +54,8 @@ structure BaseV where
   dt : Text            -- numpy dtype string (`"f"`, `">i"`, `"|S128"` …)
   shape : List Int     -- extents (the parser accepts `int()` of any token, so negative ones can be built)
   dims : List Text
+  nodata : Bool        -- `isinstance(var.data, DummyData)`: no data, `shape` is the declared shape (what the parser
+                       -- builds); `false`: the variable holds data, whose leading axes inside sequences are record axes
 deriving DecidableEq, Repr
 
 inductive Tmpl where
@@ -92,8 +94,11 @@ def indent (level : Nat) : Text := List.replicate (4 * level) ' '
 def dimText (nm : Text) (n : Int) : Text := '[' :: nm ++ [' ', '=', ' '] ++ intText n ++ [']']
 def anonText (n : Int) : Text := '[' :: intText n ++ [']']
 
+/-- `shape = var.shape; if not isinstance(var.data, DummyData): shape = shape[sequence:]` -/
+def effShape (b : BaseV) (sq : Nat) : List Int := if b.nodata then b.shape else b.shape.drop sq
+
 def shapeText (b : BaseV) (sq : Nat) : Text :=
-  let shape := b.shape.drop sq
+  let shape := effShape b sq
   if b.dims ≠ [] then (b.dims.zip shape).flatMap fun p => dimText p.1 p.2
   else if shape.length = 1 then shape.flatMap (dimText b.name)
   else shape.flatMap anonText
@@ -249,7 +254,7 @@ def base (buf : Text) : Except Err (BaseV × Text) :=
   | .ok (sh, dims, b3) =>
   match consumeLit [';'] b3 with
   | .error e => .error e
-  | .ok b4 => .ok (⟨quoteName nm, dt, sh, dims⟩, b4)
+  | .ok b4 => .ok (⟨quoteName nm, dt, sh, dims, true⟩, b4)   -- `BaseType(name, DummyData(dtype, shape), dimensions=…)`
 
 /-- `container[var.name] = var` (StructureType.__setitem__): an existing key is deleted first -/
 def addChildB (acc : List BaseV) (v : BaseV) : List BaseV := acc.filter (fun x => x.name != v.name) ++ [v]
@@ -378,14 +383,15 @@ def normTy (dt : Text) : Text :=
     | none => []
     | some d => d
 
-/-- what the DDS says about a base variable printed at sequence depth `sq`: the leading `sq` extents
-    are not declared; named dimensions are paired with the remaining extents (`zip`); an unnamed 1-d
-    array gets its own name as dimension name -/
+/-- what the DDS says about a base variable printed at sequence depth `sq`: the leading `sq` record
+    axes of a variable that holds data are not declared (`effShape`); named dimensions are paired with the
+    declared extents (`zip`); an unnamed 1-d array gets its own name as dimension name; the parsed variable
+    has no data (`nodata`), only this declared shape -/
 def normBase (b : BaseV) (sq : Nat) : BaseV :=
-  let shape := b.shape.drop sq
-  if b.dims ≠ [] then ⟨b.name, normTy b.dt, (b.dims.zip shape).map (·.2), (b.dims.zip shape).map (·.1)⟩
-  else if shape.length = 1 then ⟨b.name, normTy b.dt, shape, shape.map fun _ => b.name⟩
-  else ⟨b.name, normTy b.dt, shape, []⟩
+  let shape := effShape b sq
+  if b.dims ≠ [] then ⟨b.name, normTy b.dt, (b.dims.zip shape).map (·.2), (b.dims.zip shape).map (·.1), true⟩
+  else if shape.length = 1 then ⟨b.name, normTy b.dt, shape, shape.map fun _ => b.name, true⟩
+  else ⟨b.name, normTy b.dt, shape, [], true⟩
 
 mutual
 def normT : Tmpl → Nat → Tmpl
